@@ -303,8 +303,12 @@ impl TcpSession {
     }
 
     fn front_hup(&mut self) -> SessionResult {
+        let front_is_readable = self.front_readiness().event.is_readable();
         match &mut self.state {
             TcpStateMachine::Pipe(pipe) => pipe.frontend_hup(&mut self.metrics),
+            // The client hung up behind bytes (PROXY header, payload) that are
+            // still in the socket: the read path will meet the end of the stream.
+            _ if front_is_readable => SessionResult::Continue,
             _ => {
                 self.log_request();
                 SessionResult::Close
@@ -862,10 +866,11 @@ impl TcpSession {
 
         if self.front_readiness().event.is_hup() {
             let session_result = self.front_hup();
-            if session_result == SessionResult::Continue {
-                self.front_readiness().event.remove(Ready::HUP);
+            if session_result != SessionResult::Continue {
+                return session_result;
             }
-            return session_result;
+            // request bytes are still in flight: relay them before closing
+            self.front_readiness().event.remove(Ready::HUP);
         }
 
         while counter < MAX_LOOP_ITERATIONS {
